@@ -979,8 +979,14 @@ DECODE_HEADS = (b"", b"\xa5" * 7, b"\x5a" * 4096, b"")
 
 def lib_decode(t, fmt, data, tail=b"", head=None):
     """decode with the library from a stream that carries `head` before and `tail` after the block (a block is never
-    at position 0 of a real file); returns (block, bytes consumed). Unless given, the head is a pure function of the
-    block bytes: empty, 7 or 4096 bytes."""
+    at position 0 of a real file); returns (block, bytes consumed). See consume() for the streams."""
+    return consume(lambda st_: lib_class(t)._build(st_, fmt), data, tail, head)
+
+
+def consume(build, data, tail=b"", head=None):
+    """hand `data` (+ tail) to build(stream) -> (object, bytes consumed). As a pure function of the bytes the stream is: a BytesIO with 0,
+    7 or 4096 other bytes in front; a real file; a gzip stream (its fileno() is the compressed file's); and the call is made in the
+    calling thread or in a worker thread."""
     import io
     import zlib
 
@@ -990,7 +996,6 @@ def lib_decode(t, fmt, data, tail=b"", head=None):
         head = DECODE_HEADS[crc % len(DECODE_HEADS)]
     kind = (crc >> 8) % 8
     if kind in (5, 7) and len(data) < 2_000_000:
-        # ... and the stream is not always a BytesIO: a real file, or a gzip stream (its fileno() is the compressed file's)
         from . import env
 
         d = env.fresh_dir()
@@ -1001,29 +1006,28 @@ def lib_decode(t, fmt, data, tail=b"", head=None):
                     f.write(head + data + bytes(tail))
                 with open(path, "rb") as f:
                     f.seek(len(head))
-                    blk = lib_class(t)._build(f, fmt)
-                    return blk, f.tell() - len(head)
+                    obj = build(f)
+                    return obj, f.tell() - len(head)
             import gzip
 
             with gzip.open(path, "wb") as f:
                 f.write(head + data + bytes(tail))
             with gzip.open(path, "rb") as f:
                 f.seek(len(head))
-                blk = lib_class(t)._build(f, fmt)
-                return blk, f.tell() - len(head)
+                obj = build(f)
+                return obj, f.tell() - len(head)
         finally:
             env.rmdir(d)
     st_ = io.BytesIO(head + data + bytes(tail))
     st_.seek(len(head))
     if kind == 3:
-        # ... and not always in the thread that imported the library: a worker thread of the application decodes just the same
         import threading
 
         box = {}
 
         def work():
             try:
-                box["blk"] = lib_class(t)._build(st_, fmt)
+                box["obj"] = build(st_)
             except BaseException as e:  # noqa
                 box["e"] = e
 
@@ -1032,9 +1036,9 @@ def lib_decode(t, fmt, data, tail=b"", head=None):
         th.join()
         if "e" in box:
             raise box["e"]
-        return box["blk"], st_.tell() - len(head)
-    blk = lib_class(t)._build(st_, fmt)
-    return blk, st_.tell() - len(head)
+        return box["obj"], st_.tell() - len(head)
+    obj = build(st_)
+    return obj, st_.tell() - len(head)
 
 
 def invalid_variant(spec):
